@@ -126,14 +126,17 @@ def cycle (d : Design) (m : MState) : Option (Val × MState) := do
 
 /-! ### reading a design off the statements -/
 
-/-- constants by fixpoint over their definitions -/
-def constSweep (Γ : String → Option Width) : List (String × Ex) → Val → Val
-  | [], σ => σ
-  | (n, e) :: rest, σ =>
-    if σ.has n || !((refs e).all σ.has) then constSweep Γ rest σ
-    else match dv Γ σ.get e with
-      | some v => constSweep Γ rest (σ.set n v)
-      | none => constSweep Γ rest σ
+/-- constants in dependency order: a constant whose references are all known gets the width
+    and value of its defining expression -/
+def constSweep : List (String × Ex) → List (String × Width) × Val → List (String × Width) × Val
+  | [], acc => acc
+  | (n, e) :: rest, (ws, σ) =>
+    if σ.has n || !((refs e).all σ.has) then constSweep rest (ws, σ)
+    else
+      let Γ : String → Option Width := fun k => ws.lookup k
+      match dv Γ σ.get e with
+      | some v => constSweep rest (ws ++ [(n, sw Γ e)], σ.set n v)
+      | none => constSweep rest (ws, σ)
 
 def builtinWidths : List (String × Width) :=
   [("Stat", .bits 3), ("pc", .bits 64), ("i10bytes", .bits 80), ("mem_addr", .bits 64), ("mem_readbit", .bits 1),
@@ -153,14 +156,9 @@ def elabStmt (a : Elab) : Stmt → Elab
   | .assigns as => { a with assigns := a.assigns ++ as.flatMap (fun x => x.names.map (fun n => (n, x.value))) }
   | .bank b => { a with banks := a.banks ++ [b] }
 
-/-- constant widths and values, iterating to a fixpoint (a constant's width is that of its definition) -/
 def elabConsts (defs : List (String × Ex)) : Nat → List (String × Width) × Val → List (String × Width) × Val
   | 0, acc => acc
-  | k+1, (ws, σ) =>
-    let Γ : String → Option Width := fun n => ws.lookup n
-    let σ' := constSweep Γ defs σ
-    let ws' := defs.filterMap (fun p => if σ'.has p.1 then some (p.1, sw Γ p.2) else none)
-    elabConsts defs k (ws', σ')
+  | k+1, acc => elabConsts defs k (constSweep defs acc)
 
 def design (stmts : List Stmt) : Design :=
   let a := stmts.foldl elabStmt {}
